@@ -392,12 +392,199 @@ def check(prog, rep, tier):
         rep.ok("C04.reinsert-all", f"{CTX}.merge: every hash of second.hashes() is added")
     else:
         rep.bad("C04.reinsert-all", f"{CTX}.merge", "merge loop", "merge does not add every hash yielded by second.hashes()", mg.where())
+    metadata_definition_rule(prog, rep)
+    scan_start_rule(prog, rep)
+
+
+# --------------------------------------------------------------------------- (f) metadata bits follow their definitions
+def _bit_stores(p, after_idx):
+    """(field, index, value, event) for every single-bit store after event number after_idx"""
+    out = []
+    for e in p.events[after_idx:]:
+        if e.kind == "call" and e.target is not None and e.target.cls is not None and e.target.cls.name == "Bitarray" and e.d.get("recv") is not None \
+                and not e.loops and e.target.src_name in ("__setitem__", "set_bit", "clear_bit"):
+            r = strip_epochs(e.recv)
+            if r[0] != "f" or r[1] != SELF:
+                continue
+            if e.target.src_name == "__setitem__" and len(e.args) == 2:
+                out.append((r[2], strip_epochs(e.args[0]), strip_epochs(e.args[1]), e))
+            elif len(e.args) == 1:
+                out.append((r[2], strip_epochs(e.args[0]), C(1 if e.target.src_name == "set_bit" else 0), e))
+    return out
+
+
+def _is_neq_bit(v, x, y, conds) -> bool:
+    """v is (x != y) as 0/1 on this path"""
+    from ..intervals import EQ, GT, LT, path_orderings
+    ne = {("cmp", "!=", x, y), ("cmp", "!=", y, x)}
+    eq = {("cmp", "==", x, y), ("cmp", "==", y, x)}
+    if v in ne:
+        return True
+    if v[0] == "call" and v[1] in (("g", "int"), ("g", "bool")) and len(v[2]) == 1 and v[2][0] in ne:
+        return True
+    if v[0] == "phi":
+        if v[1] in ne and v[2] == C(1) and v[3] == C(0):
+            return True
+        if v[1] in eq and v[2] == C(0) and v[3] == C(1):
+            return True
+        return False
+    if v in (C(1), C(True)) or v in (C(0), C(False)):
+        o = path_orderings(conds, x, y)
+        return o <= ({LT, GT} if v in (C(1), C(True)) else {EQ})
+    return False
+
+
+def metadata_definition_rule(prog, rep):
+    rep.rule("C04.metadata-definition", "the inserted element's bits follow their definitions: shifted iff slot != quotient, continuation iff slot != run start, occupied[quotient] set", floor=1)
+    f = prog.method(CTX, "_shift_insert")
+    if len(f.params) < 5:
+        raise AnalysisError("C04: _shift_insert no longer takes (q, r, run start, slot)")
+    q, r, start, slot = (("p", n) for n in f.params[1:5])
+    ps = [p for p in paths(prog, CTX, f) if p.exit[0] == "return"]
+    rep.analysed(f, CTX, len(ps))
+    good, n = True, 0
+    for p in ps:
+        place = [i for i, e in enumerate(p.events) if e.kind == "setelem" and outer_field(e.cont) == "_filter" and not e.loops and strip_epochs(e.value) == r]
+        if not place:
+            rep.bad("C04.metadata-definition", f"{CTX}._shift_insert", "remainder not stored", "a returning path of _shift_insert does not store the new remainder", f.where())
+            good = False
+            break
+        x = strip_epochs(p.events[place[-1]].index)
+        conds = [strip_epochs(c) for c in all_conds(p)]
+        stores = _bit_stores(p, 0)
+        last = {}
+        for fld, idx, val, e in stores:
+            last[(fld, idx)] = (val, e)
+        for fld, other, what in (("_is_shifted", q, "slot != quotient"), ("_is_continuation", start, "slot != start of the quotient's run")):
+            got = last.get((fld, x))
+            if got is None or not _is_neq_bit(got[0], x, other, conds):
+                rep.bad("C04.metadata-definition", f"{CTX}._shift_insert", f"{fld}[{nshow(x)}] = {nshow(got[0]) if got else 'not written'}",
+                        f"the new element is stored at {nshow(x)} and its {fld[4:]} bit is left as {nshow(got[0]) if got else 'whatever was there'}; by definition it must be ({what}) "
+                        f"= ({nshow(x)} != {nshow(other)}): run and cluster boundaries computed from the bits no longer match where the elements are", (got[1].where() if got else f.where()))
+                good = False
+        occ = last.get(("_is_occupied", q))
+        if occ is None or occ[0] not in (C(1), C(True)):
+            rep.bad("C04.metadata-definition", f"{CTX}._shift_insert", f"is_occupied[q] = {nshow(occ[0]) if occ else 'not written'}",
+                    "inserting an element of quotient q does not set is_occupied[q]: the element's run is not found by later look-ups", f.where())
+            good = False
+        if not good:
+            break
+        n += 1
+    if good and n:
+        rep.ok("C04.metadata-definition", f"{CTX}._shift_insert: {n} returning paths set shifted = (slot != q), continuation = (slot != run start), occupied[q] = 1")
+    elif good:
+        rep.bad("C04.metadata-definition", f"{CTX}._shift_insert", "never returns", "_shift_insert has no returning path", f.where())
+
+
+def _pred_value(prog, name, arg):
+    """value returned by a one-parameter predicate helper of the quotient filter, for argument `arg`"""
+    from ..expr import mapx
+    g = prog.method(CTX, name)
+    ps = [p for p in paths(prog, CTX, g, force_inline=(name,)) if p.exit[0] == "return"]
+    if len(ps) != 1 or len(g.params) != 2:
+        return None
+    par = ("p", g.params[1])
+    return mapx(strip_epochs(ps[0].exit[1]), lambda n_: arg if n_ == par else None)
+
+
+def scan_start_rule(prog, rep):
+    """hashes() decodes the table from a start slot: the walk must not begin in the middle of a cluster"""
+    rep.rule("C04.scan-start", "hashes() starts its walk at an empty slot, or - when there is none - at a cluster start", floor=1)
+    f = prog.method(CTX, "hashes")
+    ps = paths(prog, CTX, f, max_states=20000)
+    rep.analysed(f, CTX, len(ps))
+    size = ("f", SELF, "_size", 0)
+    full = ("call", ("g", "range"), (size,), ())
+    PRED = ("_is_empty_element", "_is_cluster_start")
+
+    def searched(p, name):
+        """the path shows a complete unsuccessful search for predicate `name` over range(size)"""
+        for c in p.conds:
+            a = strip_epochs(c.atom)
+            if a[0] == "loop0" and strip_epochs(a[2]) == full and c.truth:
+                return True  # range(size) is empty: every search over it fails
+            if c.loops and not c.truth:
+                it = ("it", c.loops[-1], full)
+                if canon(c.atom) == canon(_pred_value(prog, name, it)):
+                    return True
+        return False
+
+    def ok_start(p, s_, need):
+        s_ = strip_epochs(s_)
+        if s_[0] == "it" and strip_epochs(s_[2]) == full:
+            for name in PRED:
+                pv = canon(_pred_value(prog, name, s_))
+                if any(c.truth and canon(c.atom) == pv for c in p.conds) and (name == PRED[0] or PRED[0] not in need or searched(p, PRED[0])):
+                    return True
+            return False
+        if s_[0] == "call" and s_[1] == ("g", "next") and len(s_[2]) == 2 and s_[2][0][0] == "comp" and len(s_[2][0][3]) == 1:
+            g = s_[2][0]
+            gen = g[3][0]
+            it = ("it", gen[1], full)
+            if strip_epochs(gen[2]) == full and strip_epochs(g[2]) == it and len(gen[3]) == 1:
+                for name in PRED:
+                    if canon(gen[3][0]) == canon(_pred_value(prog, name, it)) and (name == PRED[0] or PRED[0] not in need):
+                        return ok_start(p, s_[2][1], need - {name})
+            return False
+        # a default: acceptable only when both searches are known to have failed (no element can then be stored at all)
+        return all(n_ not in need or searched(p, n_) for n_ in PRED)
+
+    good, seen = True, 0
+    for p in ps:
+        ys = [e for e in p.events if e.kind == "yield" and e.loops]
+        if not ys:
+            continue
+        lid = ys[0].loops[-1]
+        # the slot a yielded hash is read from, as a function of the walk variable; the walk starts at its value in the first iteration
+        slots = {strip_epochs(n[2]) for e in ys for n in walk(e.value) if n[0] == "sub" and outer_field(n[1]) == "_filter"}
+        doms = {strip_epochs(n[2]) for sl in slots for n in walk(sl) if n[0] == "it" and n[1] == lid}
+        if len(slots) != 1 or len(doms) != 1:
+            rep.bad("C04.scan-start", f"{CTX}.hashes", "walk domain", "the slots yielded by hashes() are not taken from one walk over the table", ys[0].where())
+            good = False
+            break
+        d = next(iter(doms))
+        if d[0] == "call" and d[1] == ("g", "range") and len(d[2]) == 1:
+            first = C(0)
+        elif d[0] == "call" and d[1] == ("g", "range") and len(d[2]) == 2:
+            first = d[2][0]
+        else:
+            rep.bad("C04.scan-start", f"{CTX}.hashes", f"walk over {nshow(d)}", f"hashes() walks {nshow(d)}, not a range", ys[0].where())
+            good = False
+            break
+        from ..expr import mapx, norm
+        s_ = norm(mapx(next(iter(slots)), lambda n_: first if (n_[0] == "it" and n_[1] == lid) else None))
+        def unzero(x):
+            if x[0] == "nary" and x[1] == "+" and C(0) in x[2]:
+                rest = tuple(y for y in x[2] if y != C(0))
+                return rest[0] if len(rest) == 1 else ("nary", "+", rest)
+            return x
+        s_ = unzero(s_)
+        if s_[0] == "bin" and s_[1] in ("%", "&") and strip_epochs(s_[3]) in (size, MOD):
+            s_ = unzero(s_[2])  # reduced modulo the table size: the start itself is an element of range(size) or a constant
+        seen += 1
+        if not ok_start(p, s_, set(PRED)):
+            rep.bad("C04.scan-start", f"{CTX}.hashes", f"start = {nshow(s_)}",
+                    f"hashes() can begin its walk at {nshow(s_)} on a path that has established neither that this slot is empty nor - with no empty slot found - that it is a cluster start: "
+                    "beginning inside a cluster attributes the leading elements to the wrong quotient (a full table lists hashes that were never added, and resize / merge rebuild the wrong set)",
+                    ys[0].where())
+            good = False
+            break
+    if good and seen:
+        rep.ok("C04.scan-start", f"{CTX}.hashes: {seen} yielding paths start at an empty slot or, failing that, at a cluster start")
+    elif good:
+        rep.bad("C04.scan-start", f"{CTX}.hashes", "never yields", "hashes() has no path that yields a stored hash", f.where())
 
 
 from ..selftest import Mutant, del_stmt, insert_stmt, replace_expr, replace_stmt, seq
 
 _Q = "quotientfilter/quotientfilter.py"
 MUTANTS = [
+    Mutant("_shift_insert: shifted bit from the run start instead of the slot", _Q, replace_expr("QuotientFilter", "_shift_insert", "insert_idx != q", "orig_idx != q", nth=1), rule="C04.metadata-definition"),
+    Mutant("_shift_insert: continuation bit compares the slot with the quotient", _Q, replace_expr("QuotientFilter", "_shift_insert", "insert_idx != orig_idx", "insert_idx != q"), rule="C04.metadata-definition"),
+    Mutant("_shift_insert: occupied bit not set on the empty-slot path", _Q, del_stmt("QuotientFilter", "_shift_insert", "self._is_occupied[q] = 1"), rule="C04."),
+    Mutant("_shift_insert: bits spelled int(a != b) (same meaning)", _Q, replace_expr("QuotientFilter", "_shift_insert", "1 if insert_idx != q else 0", "int(insert_idx != q)"), expect="silent"),
+    Mutant("hashes: fall back to a run start instead of a cluster start when the table is full", _Q, replace_expr("QuotientFilter", "hashes", "self._is_cluster_start(i)", "self._is_run_start(i)"), rule="C04.scan-start"),
+    Mutant("hashes: no fall-back when no slot is empty", _Q, replace_expr("QuotientFilter", "hashes", "self._is_cluster_start(i)", "False"), rule="C04.scan-start"),
     Mutant("_remove_element: next_idx = idx + 1 without the mask", _Q, replace_stmt("QuotientFilter", "_remove_element", "next_idx = idx + 1 & self.__mod_size", "next_idx = idx + 1"), rule="C04."),
     Mutant("_get_start_index walks left without the mask", _Q, replace_stmt("QuotientFilter", "_get_start_index", "j = j - 1 & self.__mod_size", "j = j - 1"), rule="C04."),
     Mutant("_shift_insert: continuation bit set at insert_idx + 1 unmasked", _Q, replace_expr("QuotientFilter", "_shift_insert", "insert_idx + 1 & self.__mod_size", "insert_idx + 1", nth=1), rule="C04."),
